@@ -175,7 +175,7 @@ pub fn ledger_segments(case: &Case) -> Vec<Value> {
                 seg["deltas"] = json!(devs);
                 seg["status"] = json!(status);
                 seg["msgDays"] = json!(days_in_text(&msg));
-                seg["msg"] = json!(msg);
+                seg["msg"] = json!(clean(&msg));
                 out.push(seg);
             }
             for sec in map.keys() {
@@ -206,7 +206,12 @@ fn fail_all(
         seg["deltas"] = json!([]);
         seg["status"] = json!(status);
         seg["msgDays"] = json!(days_in_text(e));
-        seg["msg"] = json!(e);
+        seg["msg"] = json!(clean(e));
         out.push(seg);
     }
+}
+
+/// messages go through TLC's printer: keep them on one line and ASCII
+pub fn clean(s: &str) -> String {
+    s.chars().map(|c| if c.is_control() || c == '\\' || c == '"' || !c.is_ascii() { ' ' } else { c }).collect()
 }
